@@ -5,8 +5,10 @@ import (
 	"fmt"
 	"net/http"
 	"net/http/httptest"
+	"os"
 	"strings"
 	"sync"
+	"sync/atomic"
 
 	"github.com/vicanso/elton"
 	"github.com/vicanso/elton/middleware"
@@ -27,7 +29,7 @@ func init() { families["reload"] = runReload }
 func runReload(seed uint64, n int, tier string, out string, replay string) {
 	rnd := hx.NewRand(seed)
 	sum := hx.NewSummary("reload", seed)
-	sum.Rule = "one case = one request through the full middleware chain (error, fresh, responder, cache, proxy) to an origin that parks it; while it is parked one of: upstream.Reset with the upstream's Accept-Encoding added / removed / changed, location.Reset with other added headers, server.Reset with another compress threshold, compress.Reset with other levels, a purge of the key, nothing; then the origin answers (gzip when asked for it) and a second client repeats the request (hit); both responses must carry a Content-Encoding their own client accepts, decode to the origin's body for that URL and have status 200; non-trivial = something happened while parked; distinct by (event, encodings)"
+	sum.Rule = "first: 16 goroutines route tenant hosts continuously (host-restricted location with 48 hosts + catch-all; each lookup must return the tenants location) while the location registry is re-applied 300+10n times (a runtime crash is caught through inflight.json); then one case = one request through the full middleware chain (error, fresh, responder, cache, proxy) to an origin that parks it; while it is parked one of: upstream.Reset with the upstream's Accept-Encoding added / removed / changed, location.Reset with other added headers, server.Reset with another compress threshold, compress.Reset with other levels, a purge of the key, nothing; then the origin answers (gzip when asked for it) and a second client repeats the request (hit); both responses must carry a Content-Encoding their own client accepts, decode to the origin's body for that URL and have status 200; non-trivial = something happened while parked; distinct by (event, encodings)"
 	distinct := hx.NewDistinct()
 	var mu sync.Mutex
 	gate := map[string]chan struct{}{}
@@ -73,6 +75,46 @@ func runReload(seed uint64, n int, tier string, out string, replay string) {
 	defer upstream.Reset(nil)
 	defer location.Reset(nil)
 	defer server.Reset(nil)
+	// routing right after a reload: every reload builds fresh location objects; the first requests that
+	// reach them arrive concurrently
+	var tenantHosts []string
+	for k := 0; k < 48; k++ {
+		tenantHosts = append(tenantHosts, fmt.Sprintf("tenant%d.example", k))
+	}
+	{
+		_ = os.WriteFile(out+"/inflight.json", []byte(`{"family":"reload","event":"16 goroutines route tenant hosts continuously (location.Get on a host-restricted location with 48 hosts + a catch-all) while the location registry is re-applied 300+ times with the same configuration"}`), 0o644)
+		lcfg := []config.LocationConfig{{Name: "tenants", Upstream: "ru", Hosts: tenantHosts}, {Name: "catchall", Upstream: "other"}}
+		location.Reset(lcfg)
+		var wg sync.WaitGroup
+		var wrong, lookups atomic.Int64
+		var stop atomic.Bool
+		for g := 0; g < 16; g++ {
+			wg.Add(1)
+			go func(g int) {
+				defer wg.Done()
+				for k := 0; !stop.Load(); k++ {
+					h := tenantHosts[(g*7+k*5)%len(tenantHosts)]
+					if l := location.Get(h, "/x", "tenants", "catchall"); l == nil || l.Upstream != "ru" {
+						wrong.Add(1)
+					}
+					lookups.Add(1)
+				}
+			}(g)
+		}
+		for round := 0; round < 300+10*n; round++ {
+			location.Reset(lcfg)
+			for spin := 0; spin < 2000; spin++ {
+				_ = spin
+			}
+		}
+		stop.Store(true)
+		wg.Wait()
+		sum.Distribution["route_lookups_during_reloads"] = int(lookups.Load())
+		if wrong.Load() > 0 {
+			sum.ImplViolations = append(sum.ImplViolations, map[string]interface{}{"property": "C20+C14", "kind": "misrouted-during-reloads", "count": wrong.Load(), "lookups": lookups.Load()})
+		}
+		_ = os.Remove(out + "/inflight.json")
+	}
 	events := []string{"none", "upstream-ae-removed", "upstream-ae-added", "upstream-ae-changed", "location-headers", "server-threshold", "compress-levels", "purge", "upstream-same"}
 	accepts := []string{"", "gzip", "br", "gzip, br", "identity"}
 	for i := 0; i < n; i++ {
